@@ -745,7 +745,7 @@ class Interp(object):
 
     def s_For(self, node, env):
         src = self.eval(node.iter, env)
-        if isinstance(src, bi.GenObj) and src.items is None and not any(isinstance(n, (ast.Break, ast.Return)) for n in ast.walk(node)):
+        if isinstance(src, bi.GenObj) and src.items is None and not any(isinstance(n, ast.Break) for n in ast.walk(node)):
             # `for x in gen(...)`: run the generator's body in place; at each of its yields run this loop's body with
             # the target bound to the yielded value (so contracted loops inside the generator compose with this one)
             outer_hook = self.yield_hook
@@ -759,11 +759,17 @@ class Interp(object):
                         self.exec_block(node.body, env)
                     except _Continue:
                         pass
+                    except _Return as r:
+                        # the consumer returns from inside its loop: the generator is abandoned at this yield.  Carried through the
+                        # generator's own frames as a distinct exception (its loops / run_body must not mistake it for their own).
+                        raise _ConsumerReturn(r)
                 finally:
                     self.yield_hook = saved
             self.yield_hook = on_inner_yield
             try:
                 self.run_body(src.fn, src.env)
+            except _ConsumerReturn as cr:
+                raise cr.ret
             finally:
                 self.yield_hook = outer_hook
             src.items = []
@@ -1089,6 +1095,11 @@ class Interp(object):
             if spec.stop_after:
                 raise PathEnd()
             self.exec_block(node.orelse, env)
+
+
+class _ConsumerReturn(Exception):
+    def __init__(self, ret):
+        self.ret = ret
 
 
 class ModuleRef(object):
